@@ -49,10 +49,10 @@ FRAGMENT_TAGS = {'or_test', 'and_test', 'not_test', 'comparison', 'comp_op', 'co
 
 
 def run_translators(ctx: Ctx) -> tuple[bool, str]:
-	from translate import gen_decl_matchers, gen_grammar_ladder, gen_resolver_table
+	from translate import gen_decl_matchers, gen_grammar_ladder, gen_grammar_parents, gen_resolver_table
 	msgs = []
 	ok = True
-	for mod in (gen_grammar_ladder, gen_resolver_table, gen_decl_matchers):
+	for mod in (gen_grammar_ladder, gen_resolver_table, gen_decl_matchers, gen_grammar_parents):
 		try:
 			for rec in mod.generate():
 				if 'lexer' in rec:
@@ -62,6 +62,83 @@ def run_translators(ctx: Ctx) -> tuple[bool, str]:
 			ok = False
 			msgs.append(f'{mod.__name__}: {type(e).__name__}: {e}')
 	return ok, '; '.join(msgs)
+
+
+# ---------------------------------------------------------------------------------------------
+# budgets: no real-code call, model call, stream or search can hang the check
+
+
+class CaseTimeout(Exception):
+	"""a single real-code evaluation exceeded its budget (a finding where the property says the call returns)"""
+
+
+CASE_BUDGET_S = 20.0
+
+
+class budget:
+	"""`with budget(seconds):` — raises CaseTimeout in the main thread when the body runs longer (SIGALRM; a no-op elsewhere)"""
+
+	def __init__(self, seconds: float = CASE_BUDGET_S) -> None:
+		self.seconds = seconds
+		self.armed = False
+
+	def __enter__(self) -> 'budget':
+		import signal
+		import threading
+		if threading.current_thread() is threading.main_thread() and hasattr(signal, 'setitimer'):
+			def on_alarm(signum: int, frame: Any) -> None:
+				raise CaseTimeout(f'exceeded {self.seconds}s')
+			self.old = signal.signal(signal.SIGALRM, on_alarm)
+			signal.setitimer(signal.ITIMER_REAL, self.seconds)
+			self.armed = True
+		return self
+
+	def __exit__(self, *a: Any) -> bool:
+		import signal
+		if self.armed:
+			signal.setitimer(signal.ITIMER_REAL, 0)
+			signal.signal(signal.SIGALRM, self.old)
+		return False
+
+
+class Deadline:
+	"""total wall budget of one stream / search: generation stops (and is counted) when it is used up"""
+
+	def __init__(self, ctx: Ctx, quick_s: float, thorough_s: float) -> None:
+		import time
+		self.t_end = time.time() + ctx.scale(int(quick_s), int(thorough_s))
+
+	def over(self) -> bool:
+		import time
+		return time.time() > self.t_end
+
+
+def correspond_batched(name: str, cases: list[tuple[Any, list[str], list[str]]], batch: int = 400, batch_timeout: float = 240.0) -> Stream:
+	"""`common.correspond` in batches, each with its own model budget: a batch on which the Lean driver does not answer in time
+	(or answers with the wrong number of lines) becomes a disagreement of that stream, never a hang or a harness crash."""
+	total = Stream(name)
+	for k in range(0, len(cases), batch):
+		part = cases[k:k + batch]
+		lines = [ln for _, ops, _ in part for ln in ops]
+		try:
+			model = common.lean_driver('ladder', lines, timeout=batch_timeout)
+			pos = 0
+			for desc, ops, real in part:
+				mod = model[pos:pos + len(ops)]
+				pos += len(ops)
+				total.cases += 1
+				for i, (o, r, m) in enumerate(zip(ops, real, mod)):
+					if r != m:
+						total.disagreements.append({'case': desc, 'op_index': i, 'op': o[:2000], 'real': r[:4000], 'model': m[:4000]} if len(total.disagreements) < 5
+							else {'op': o[:200], 'real': r[:200], 'model': m[:200]})
+						break
+				if len(total.samples) < 3:
+					total.samples.append({'ops': [o[:300] for o in ops[:3]], 'real': [r[:300] for r in real[:3]]})
+		except common.InfraError as e:
+			total.cases += len(part)
+			total.disagreements.append({'case': {'batch_from': k, 'batch_size': len(part)}, 'op': '(batch)', 'real': '(see cases)', 'model': f'model-budget-exceeded-or-failed: {str(e)[:300]}'})
+	total.distinct = len({tuple(ops) for _, ops, _ in cases})
+	return total
 
 
 # ---------------------------------------------------------------------------------------------
@@ -265,6 +342,7 @@ KEYWORD_POSITIONS = ['{w}', '{w} + 1', '{w} if a else b', 'a + {w}', 'a == {w}',
 
 def stream_lark_vs_rd(ctx: Ctx) -> Stream:
 	rng = ctx.sub_rng('lark-vs-rd')
+	deadline = Deadline(ctx, 60, 400)
 	app = common.MemApp(ctx.tmpdir())
 	n = ctx.scale(1500, 25000)
 	cases = []
@@ -291,8 +369,12 @@ def stream_lark_vs_rd(ctx: Ctx) -> Stream:
 			if keyword_split_hazard(text):
 				hist[f'{kind}:skipped-keyword-prefix-after-operand'] += 1
 				continue
+		if deadline.over():
+			hist['deadline-reached'] += 1
+			break
 		try:
-			root = real_parse(app, text)
+			with budget():
+				root = real_parse(app, text)
 			kids = root.children
 			if len(kids) == 1 and not in_fragment(kids[0]):
 				# a mutation produced a call / tuple / ternary …: outside the fragment of the reference parser
@@ -303,7 +385,7 @@ def stream_lark_vs_rd(ctx: Ctx) -> Stream:
 			real = 'error'
 		hist[f"{kind}:{'ok' if real != 'error' else 'rejected'}"] += 1
 		cases.append(({'text': text, 'kind': kind}, [f'rd\t{hx(text)}'], [real]))
-	st = common.correspond('lark-vs-rd', cases, 'ladder')
+	st = correspond_batched('lark-vs-rd', cases, batch=2000)
 	st.histogram = dict(hist)
 	st.note = ('texts of `expression`: operators of all ladder levels, conditional expressions, lambdas, parentheses around any of them (`<>`, unsupported `//` `**` `@`, names that extend keywords, numbers, strings, constants; '
 		'minimal / random / redundant parentheses, varied spacing) plus token-level mutations; real = lark tree through the Entry view, model = rdParse(lex text)')
@@ -376,14 +458,24 @@ def stream_pygroup(ctx: Ctx) -> Stream:
 	exprs = []
 	for i in range(n):
 		exprs.append(gen_prec_expr(rng, 1 + i % (6 if not ctx.thorough else 8), [0]))
-	texts = common.lean_driver('ladder', [f'pymin\t{e}' for e in exprs])
 	cases = []
 	hist: Counter[str] = Counter()
+	try:
+		texts = common.lean_driver('ladder', [f'pymin\t{e}' for e in exprs], timeout=300)
+	except common.InfraError as ex:
+		st = Stream('pygroup')
+		st.cases = len(exprs)
+		st.disagreements.append({'op': 'pymin (all)', 'real': '(texts)', 'model': f'model-budget-exceeded-or-failed: {str(ex)[:300]}'})
+		return st
 	for e, t in zip(exprs, texts):
 		if not t.startswith('ok '):
 			cases.append(({'expr': e}, [f'pymin\t{e}'], ['ok <text>']))
 			continue
-		text = common.unhx(t[3:])
+		try:
+			text = common.unhx(t[3:])
+		except ValueError:
+			cases.append(({'expr': e}, [f'pymin\t{e}'], ['ok <hex text>']))
+			continue
 		try:
 			with warnings.catch_warnings():
 				warnings.simplefilter('ignore')
@@ -392,7 +484,7 @@ def stream_pygroup(ctx: Ctx) -> Stream:
 			real = f'cpython-rejects:{type(ex).__name__}'
 		hist[f"tokens<{10 ** len(str(len(text.split())))}"] += 1
 		cases.append(({'expr': e, 'text': text}, [f'astof\t{e}', f'rdast\t{e}'], [real, real]))
-	st = common.correspond('pygroup', cases, 'ladder')
+	st = correspond_batched('pygroup', cases, batch=3000)
 	st.histogram = dict(hist)
 	st.note = ('random operator terms over the common operators with random explicit parentheses; the text is Lean\'s printMin pyTable e; '
 		'real = ast.parse(text) folded to (U/B/L/C …), model = astOf e and toAst(rdParseP ladder text) — validates pyTable, astOf and the theorem C02.group end to end')
@@ -897,7 +989,8 @@ def keyword_names_program(app: common.MemApp) -> list[str]:
 		for tpl in ('v = a.{w}', 'a.{w} = 1', 'f({w}=1)', 'g(a, {w}=b, *c)', 'x = b + {w}', 'def h({w}: int) -> None:\n\tpass'):
 			line = tpl.format(w=w)
 			try:
-				app.entrypoint(line + '\n')
+				with budget():
+					app.entrypoint(line + '\n')
 			except Exception:  # noqa: BLE001 - the keyword terminal is acceptable at that position: not a name there
 				continue
 			lines.append(line)
@@ -918,28 +1011,41 @@ def stream_classify(ctx: Ctx) -> Stream:
 	kw_items = keyword_names_program(app)
 	for k in range(0, len(kw_items), 40):
 		sources.append(('\n'.join(kw_items[k:k + 40]) + '\n', 'special-keywords'))
+	deadline = Deadline(ctx, 60, 500)
 	for src, kind in sources:
+		if deadline.over() and kind == 'generated':
+			hist['deadline-reached'] += 1
+			continue
 		try:
-			ep = app.entrypoint(src)
+			with budget():
+				ep = app.entrypoint(src)
 		except Exception:  # noqa: BLE001 - outside the grammar: not a classification case
 			hist['rejected-by-grammar'] += 1
 			continue
-		nodes = ep._Node__nodes
-		root = real_parse(app, src)
-		pf = ASTFinder().full_pathfy(root)
-		if len(pf) > 1800:
-			hist['skipped-too-large'] += 1
+		try:
+			with budget(60.0):
+				nodes = ep._Node__nodes
+				root = real_parse(app, src)
+				pf = ASTFinder().full_pathfy(root)
+				if len(pf) > 1800:
+					hist['skipped-too-large'] += 1
+					continue
+				parts = []
+				for p in pf.keys():
+					try:
+						cls = type(nodes.by(p)).__name__
+					except CaseTimeout:
+						raise
+					except Exception as e:  # noqa: BLE001
+						cls = exc_enum(e)
+					hist[cls] += 1
+					parts.append(f'{p}={cls}')
+				case = ({'kind': kind, 'source': src, 'entries': len(pf)}, [f'tree\t{trees.entry_sexp(root)}', 'classes'], [f'ok {trees.entry_size(root)}', '|'.join(parts)])
+		except Exception as e:  # noqa: BLE001 - the real side did not answer within its budget / could not be read: counted, reported in the histogram
+			hist[f'real-side-failed:{type(e).__name__}'] += 1
 			continue
-		parts = []
-		for p in pf.keys():
-			try:
-				cls = type(nodes.by(p)).__name__
-			except Exception as e:  # noqa: BLE001
-				cls = exc_enum(e)
-			hist[cls] += 1
-			parts.append(f'{p}={cls}')
-		cases.append(({'kind': kind, 'source': src, 'entries': len(pf)}, [f'tree\t{trees.entry_sexp(root)}', 'classes'], [f'ok {trees.entry_size(root)}', '|'.join(parts)]))
-	st = common.correspond('classify', cases, 'ladder')
+		cases.append(case)
+	st = correspond_batched('classify', cases, batch=40)
 	st.histogram = dict(hist)
 	st.note = ('generated nests of classes / functions / decorators / assignments / imports / calls / annotations plus hand-written programs that reach every '
 		'multi-class tag; real = type(nodes.by(path)).__name__ for every path of full_pathfy, model = first-match over the generated resolver table')
@@ -963,7 +1069,8 @@ def stream_call_args(ctx: Ctx) -> Stream:
 			parts.append(f'**{g.name()}')
 		src = f"{g.name()}({', '.join(parts)})\n"
 		try:
-			ep = app.entrypoint(src)
+			with budget():
+				ep = app.entrypoint(src)
 			call = ep.statements[0]
 			real = 'ok ' + ','.join(('star' if a.unpacking == '*' else 'dstar' if a.unpacking == '**' else f'kw:{a.label.tokens}' if node_class(a.label) != 'Empty' else 'pos') for a in call.arguments)
 			root = real_parse(app, src)
@@ -974,7 +1081,7 @@ def stream_call_args(ctx: Ctx) -> Stream:
 			continue
 		hist[f'args={len(parts)}'] += 1
 		cases.append(({'source': src}, [f'args\t{sexp}'], [real]))
-	st = common.correspond('call-args', cases, 'ladder')
+	st = correspond_batched('call-args', cases, batch=1000)
 	st.histogram = dict(hist)
 	st.note = 'calls with 0–7 arguments (plain, named, `*`, `**`, shuffled plain/named); real = (unpacking, label) of each FuncCall.arguments node, model = readArgs of the `arguments` subtree'
 	return st
@@ -1727,13 +1834,20 @@ def check_source(app: common.MemApp, src: str) -> Checked:
 			tree = ast.parse(src)
 	except SyntaxError:
 		return Checked('skip:cpython-rejects', None, None)
+	except Exception as e:  # noqa: BLE001 - ValueError (NUL), RecursionError, MemoryError: CPython does not read the text
+		return Checked(f'skip:cpython-rejects:{type(e).__name__}', None, None)
 	pc = PyCanon(src)
 	try:
 		py = pc.module(tree)
 	except CanonError as e:
 		return Checked(f'skip:outside-oracle:{e}', None, None)
+	except Exception as e:  # noqa: BLE001 - the oracle side itself failed (e.g. RecursionError on a very deep tree): no verdict for this text
+		return Checked(f'skip:oracle-error:{type(e).__name__}', None, None)
 	try:
-		ep = app.entrypoint(src)
+		with budget():
+			ep = app.entrypoint(src)
+	except CaseTimeout as e:
+		return Checked('raise', 'raise:parse:timeout', f'the parser did not return within {CASE_BUDGET_S}s: {e}')
 	except Exception as e:  # noqa: BLE001
 		# a text outside grammar.lark is outside the property's quantifier: lark's own exception (pinned tree: raw for in-memory
 		# modules; after fix 12dd004: wrapped into Errors.Syntax with the lark exception as cause / argument)
@@ -1743,7 +1857,10 @@ def check_source(app: common.MemApp, src: str) -> Checked:
 		return Checked('raise', f'raise:parse:{exc_enum(e)}', ''.join(traceback.format_exception_only(type(e), e))[-400:])
 	marks = pc.marks
 	try:
-		tr = TranpCanon().module(ep)
+		with budget():
+			tr = TranpCanon().module(ep)
+	except CaseTimeout as e:
+		return Checked('raise', 'raise:nodes:timeout', f'building / reading the node tree did not finish within {CASE_BUDGET_S}s: {e}', marks)
 	except CanonError as e:
 		return Checked('raise', f'canon-unmapped:{e}', str(e), marks)
 	except NodeAccessError as e:
@@ -1764,12 +1881,14 @@ def shrink_source(app: common.MemApp, src: str, key: str, budget: int = 250) -> 
 
 	def fails(ls: list[str]) -> bool:
 		return bool(ls) and key in check_source(app, '\n'.join(ls) + '\n').keys()
+	import time
+	t_end = time.time() + 30.0
 	steps = 0
 	changed = True
-	while changed and steps < budget:
+	while changed and steps < budget and time.time() < t_end:
 		changed = False
 		i = 0
-		while i < len(lines) and steps < budget:
+		while i < len(lines) and steps < budget and time.time() < t_end:
 			j = i + 1
 			while j < len(lines) and indent(lines[j]) > indent(lines[i]):
 				j += 1
@@ -1824,7 +1943,11 @@ def search_canon(ctx: Ctx) -> SearchResult:
 	distinct: set[int] = set()
 	corpus_findings: list[Finding] = []
 	constructs: Counter[str] = Counter()
+	deadline = Deadline(ctx, 75, 900)
 	for src, name in sources:
+		if deadline.over() and not name.startswith('corpus'):
+			hist['deadline-reached'] += 1
+			continue
 		res.cases += 1
 		distinct.add(hash(src))
 		chk = check_source(app, src)
@@ -1887,9 +2010,16 @@ STATEMENTS = {
 	'classify_constructor_agrees / classify_classMethod_agrees / classify_method_sound': 'the three formerly false statements, each with exactly the hypothesis it still needs (one / one / none)',
 	'classify_former_witnesses': 'the three old counter-example witnesses are classified as Python does',
 	'function_def_disjoint / function_def_order / function_def_overlaps / function_def_order_generated': 'Constructor, Method, Closure never accept the same node; every registration order with ClassMethod first and Function last classifies like the shipped one; ClassMethod overlaps each of the three (witnesses on which the seeded order differs); the generated resolver table has one of the good orders',
+	'name_disjoint / name_order / name_order_generated': 'the seven specific candidates of tag `name` never accept the same node; ANY registration order of them classifies every node like the shipped one; the generated row is those seven and then Var',
+	'var_pairs / var_order / var_overlaps / var_order_generated': 'two `var` candidates accept the same node only on seven listed pairs; any order keeping the first of each pair first classifies like the shipped one; each pair has a witness on which the reversed order differs; the generated row respects all pairs',
+	'resolver_fallbacks_last': 'in every row of the generated resolver table the always-accepting classes (Node.match_feature, CustomType) are last',
+	'getattr_dotted_name_disjoint': 'the two candidates of `getattr` and of `dotted_name` never accept the same node',
 	'classify_func_counterexample': 'the unconditional statement is still false where match_feature goes by the name self (class function whose first parameter is not called self); raised by the search as classify:method-without-self-name',
 	'decl_matchers_facts': 'the string constants of DeclableMatcher as generated from primary.py today (re-decided when a tag or word changes)',
-	'decl_role_exact': 'for every position of a bare identifier in the modelled statement forms (targets of plain / annotated / class-variable / augmented assignments, for and comprehension targets, with-as, except-as, lambda and def parameters, def / class / imported names, keyword labels, attribute names, statement operands, anywhere deeper in an expression) below ANY enclosing context, the class given by the first-match dispatch has exactly the role Python gives the occurrence (binding / class-variable binding / use / label)',
+	'decl_role_exact': 'for every position of a bare identifier in the modelled statement forms (targets of plain / annotated / class-variable / augmented / TypeAlias / TypeVar assignments, for and comprehension targets, with-as, except-as, lambda and def parameters, def / class / imported names, keyword labels, attribute names, statement operands, anywhere deeper in an expression) below ANY enclosing context, the class given by the first-match dispatch has exactly the role Python gives the occurrence (binding / class-variable binding / use / label)',
+	'namepos_in_grammar': 'every fixed path suffix decl_role_exact speaks about is a chain of parent/child tree tags of grammar.lark (relation generated from lark\'s compiled rules: _rules inlined, ?rules replaced by a single child, aliases renaming)',
+	'positions_complete': 'no position is missing: in the grammar\'s trees a var below assign_namelist has one of the seven target positions and any other var is a value/expression position; a name below for_namelist is a for/comprehension target; a name anywhere else has a fixed position or stands below var itself, an import path, a type expression or raise',
+	'grammar_target_statements': 'the statements owning a target list and the parents of `name`, as lists, as the grammar has them today',
 	'lexer_keywords': 'the word lists of the reference lexer are accounted for by the keyword facts generated from lark\'s LALR table',
 	'classify_name_param / classify_var_reference': 'parameter names are declarations exactly below typedparam; a var is a reference exactly when no DeclableMatcher pattern holds',
 }
@@ -1917,7 +2047,7 @@ def run(ctx: Ctx) -> int:
 			'lark returns a derivation of grammar.lark (LALR construction and PythonIndenter are not modelled)',
 			'DeclableMatcher.is_decl_class_var: `endswith` on the joined parent path is modelled as equality of its last two tags (no tag of the grammar ends with another tag after a dot)',
 			'the LOGIC of each DeclableMatcher method is pinned by the digest of its ast skeleton (translate/gen_decl_matchers.py: a changed skeleton breaks the tie loudly); its string constants are generated data',
-			'decl_role_exact speaks about the path suffixes grammar.lark produces for the listed positions (NamePos.suffix, hand-written from the grammar rules; exercised by the classify stream and by the declaration/reference roles of the ast search)',
+			'the parent/child tag relation (translate/gen_grammar_parents.py) is computed from lark\'s compiled rules with lark\'s tree-building conventions (_rule inlined, ?rule replaced by a single child unless aliased); it over-approximates only by keeping the tag of a ?rule. NamePos.suffix is checked against it (namepos_in_grammar, positions_complete); the real paths are exercised by the classify stream and by the declaration/reference roles of the ast search',
 			'the generated language leaves out only what one of the two parsers rejects or what CPython\'s ast cannot distinguish (list above class Gen); every construct both accept and read differently is generated and raised under its own key (MARK_WHAT)',
 		],
 		trusted=['CPython ast as the grouping oracle; pyTable transcribed from Grammar/python.gram, validated by stream pygroup',
